@@ -491,6 +491,33 @@ def coordinates(check, prog):
                       'multiplied by the wavevector' % [
                           (e.get('target_src') or e.get('method'), e['lineno'])
                           for e in badw][:2])
+        # ... in floating point whatever the detector's coordinates are made of: a
+        # value stored *into* an array takes that array's dtype, and an array built
+        # from the detector's own (possibly integer) coordinates -- np.array([x, y]),
+        # empty_like(x) -- truncates the offsets from a fractional centre
+        LIKE = ('numpy.array', 'numpy.asarray', 'numpy.empty_like', 'numpy.zeros_like',
+                'numpy.full_like', 'numpy.ones_like', 'numpy.stack', 'numpy.vstack')
+        trunc = []
+        for e in it.effects:
+            if e['kind'] not in ('setitem', 'augassign'):
+                continue
+            b = e.get('base') if e['kind'] == 'setitem' else e.get('target')
+            while b is not None and b[0] in ('upd', 'idx', 'mut', 'phi'):
+                if b[0] == 'phi':
+                    b = None
+                    break
+                b = b[1]
+            if b is not None and b[0] == 'call' and b[1] in LIKE and \
+                    not any(k_ == 'dtype' for k_, _ in b[3]) and \
+                    any(y == det for y in subterms(b)):
+                trunc.append((e, b))
+        check.require(not trunc, 'D3-coordinates-in-floating-point', 'hand-off [%s]' % kind,
+                      'no coordinate is stored into an array that inherits the dtype of '
+                      'the detector\'s coordinates', loc,
+                      fail_detail='%s is filled by item assignment: with integer pixel '
+                      'coordinates (detector_grid(shape, spacing=1)) the array is int64 '
+                      'and x - centre is truncated towards zero' % (
+                          show(trunc[0][1])[:80] if trunc else ''))
         # the transformation is chosen from the coordinate systems only
         f = v[1]
         ok = f[0] == 'call' and f[1] == 'holopy.core.math.find_transformation_function' \
